@@ -34,6 +34,13 @@
 #include <stdio.h>
 #include <stdlib.h>
 #include <string.h>
+#ifdef LIBERASURECODE_VERIF
+#include "erasurecode_verif.h"
+#else
+#define VERIF_ACCESS_R(obj, site) ((void)0)
+#define VERIF_ACCESS_W(obj, site) ((void)0)
+#define VERIF_YIELD(site)         ((void)0)
+#endif
 
 // We are only implementing w=16 here.  If you want to use something
 // else, then use Jerasure with GF-Complete or ISA-L.
@@ -48,16 +55,19 @@ static int init_counter = 0;
 
 void rs_galois_init_tables(void)
 {
+  VERIF_ACCESS_W(&init_counter, "galois.counter:init");
   if (init_counter++ > 0) {
     /* already initialized */
     return;
   }
+  VERIF_ACCESS_W(&log_table, "galois.tables:init-alloc");
   log_table = (int*)malloc(sizeof(int)*FIELD_SIZE);
   ilog_table_begin = (int*)malloc(sizeof(int)*FIELD_SIZE*3);
   int i = 0;
   int x = 1;
 
   for (i = 0; i < GROUP_SIZE; i++) {
+    if ((i & 0x3fff) == 0x2000) VERIF_ACCESS_W(&log_table, "galois.tables:init-fill");
     log_table[x] = i;
     ilog_table_begin[i] = x;
     ilog_table_begin[i + GROUP_SIZE] = x;
@@ -67,11 +77,13 @@ void rs_galois_init_tables(void)
       x ^= PRIM_POLY;
     }
   }
+  VERIF_ACCESS_W(&log_table, "galois.tables:init-publish");
   ilog_table = &ilog_table_begin[GROUP_SIZE];
 }
 
 void rs_galois_deinit_tables(void)
 {
+  VERIF_ACCESS_W(&init_counter, "galois.counter:deinit");
   init_counter--;
   if (init_counter < 0) {
     /* deinit when not initialized?? */
@@ -80,6 +92,7 @@ void rs_galois_deinit_tables(void)
     /* still at least one desc using it */
     return;
   } else {
+    VERIF_ACCESS_W(&log_table, "galois.tables:deinit-free");
     free(log_table);
     log_table = NULL;
     free(ilog_table_begin);
